@@ -308,9 +308,35 @@ def rule_registry(ctx):
             gone = {"first detaches itself": 0, "middle detaches itself": 1}.get(label)
             if ok and gone is not None and [m for o, m in seen if o is obs[gone]] != [m1]:
                 ok, why = False, "the observer that detached itself at the first message still receives %d messages" % len([m for o, m in seen if o is obs[gone]])
+            if ok and label == "first detaches the next" and [m for o, m in seen if o is obs[1]]:
+                ok, why = False, "observer 1 was detached (by observer 0, during the first message) before its turn came, and still receives %d message(s): detaching stops delivery" % len([m for o, m in seen if o is obs[1]])
             if ok and label == "first attaches a newcomer" and m2 not in [m for o, m in seen if o is late]:
                 ok, why = False, "the newcomer never receives a message"
         ctx.check(ok, R, "notify_listeners[%s]" % label, fn.where(), "Sequencer.notify_listeners while %s" % label, why)
+    # the registry is about *which object* listens: two observers that compare equal (recorders that are lists, say) are two observers
+    def go4(it):
+        seq = AObj(sci, {"listeners": []}, name="seq")
+        x, y, z = [], [], []
+        it.call_function(fa, [seq, x], {})
+        it.call_function(fa, [seq, y], {})
+        n1 = list(seq.attrs["listeners"])
+        it.call_function(fd, [seq, z], {})
+        n2 = list(seq.attrs["listeners"])
+        it.call_function(fd, [seq, y], {})
+        n3 = list(seq.attrs["listeners"])
+        return x, y, n1, n2, n3
+    p = explore(lambda ch: Interp(repo, ch, summaries=summ), go4)
+    ok, why = len(p) == 1 and p[0].kind == "return", "outcome %s" % [(x_.kind, short(repr(x_.value), 60)) for x_ in p]
+    if ok:
+        x, y, n1, n2, n3 = p[0].value
+        ids = lambda l: [id(o) for o in l]
+        if ids(n1) != [id(x), id(y)]:
+            ok, why = False, "two observers that compare equal are attached; %d is listed: the second one will never hear anything" % len(n1)
+        elif ids(n2) != [id(x), id(y)]:
+            ok, why = False, "detaching an object that was never attached (but compares equal to one that is) removes a listener"
+        elif ids(n3) != [id(x)]:
+            ok, why = False, "detach(y) leaves %d listeners, and not exactly the other observer" % len(n3)
+    ctx.check(ok, R, "attach/detach[equal observers]", fa.where(), "attach x, attach y (x == y, x is not y), detach z (z == x), detach y", why)
     init = repo.find_method(sci, "__init__")
     p = run_method(repo, init, lambda: [AObj(sci, {}, name="seq")])
     ok = len(p) == 1 and p[0].interp.args[0].attrs.get("listeners") == []
